@@ -338,6 +338,19 @@ func embeds(p J, s map[string]J, m J) bool {
 			return false
 		}
 		for k, v := range pv {
+			if isVar(k) {
+				// a property variable: it stands for one key of the message map
+				kv, bound := s[k]
+				ks, isStr := kv.(string)
+				if !bound || !isStr {
+					return false
+				}
+				w, have := mm[ks]
+				if !have || !embeds(v, s, w) {
+					return false
+				}
+				continue
+			}
 			w, have := mm[k]
 			if !have || !embeds(v, s, w) {
 				return false
@@ -375,7 +388,8 @@ func subvalues(x J, acc map[string]J) {
 	acc[js(x)] = x
 	switch v := x.(type) {
 	case map[string]J:
-		for _, w := range v {
+		for k, w := range v {
+			acc[js(k)] = k // a key can be the value of a property variable
 			subvalues(w, acc)
 		}
 	case []J:
@@ -549,6 +563,10 @@ func TestBoundedC02Embeddings(t *testing.T) {
 		if ok {
 			patterns = append(patterns, p)
 		}
+	}
+	// property variables: a single variable key, at the top and one level down
+	for _, v := range []J{1.0, "x", "?y", map[string]J{"a": "?y"}, map[string]J{"a": 1.0}, []J{"?y"}} {
+		patterns = append(patterns, map[string]J{"?x": v}, map[string]J{"a": map[string]J{"?x": v}})
 	}
 	marr := 2
 	if thorough() {
